@@ -77,7 +77,7 @@ func runGenEntryX(c *Ctx, tag, entry string, args []int, variants []string, need
 func C15(c *Ctx) {
 	nx, ny := 2, 2
 	if c.Thorough() {
-		nx, ny = 3, 3
+		nx, ny = 3, 2 // 3+3 took 70 minutes
 	}
 	c.Explanation = "C15: histories executed symbolically in the emitted parser: parse y from the pristine state, parse x (any outcome), ParserInit(), parse y again (global mode); fresh context vs. used-and-reinitialised context vs. a second context (object mode). Both inputs are sequences of unconstrained int64 token codes; outcomes (verdict, requests, reductions, value term) must be equal, decided by Z3 per path."
 	c.Bound("x: %d tokens, y: %d tokens, arbitrary int64 codes and values; histories [y, x, init, y] and [init, init, y]; all four Go variants", nx, ny)
@@ -98,7 +98,7 @@ func C15(c *Ctx) {
 	// induction step for histories of any length: from arbitrary stack contents
 	D := 3
 	if c.Thorough() {
-		D = 5
+		D = 4
 	}
 	c.Bound("reset step: above the bottom entry the stack variables hold any contents (stack pointer 1..%d, slice length up to %d, entries with state 1 or the last state and arbitrary values), then ParserInit(), then a parse of y (%d tokens): same outcome as from the pristine state; with the write footprint of a parse (only these variables) this extends the bounded histories to histories of any length whose parses stay within that depth", D, D, ny)
 	c.Harnesses = append(c.Harnesses, "harness/gen/step.go.txt:VerifResetStep")
